@@ -231,7 +231,12 @@ class ExprMixin:
                 return [Out("val", st, self.class_attr(st, ci, attr, node))]
             fth = self.field_hint(st, ci, attr, node)
             r = V.r(base.z)
-            return [Out("val", st, self.typed(st, st.hread(attr, r), fth))]
+            untouched = attr in st.heap0 and st.heap.get(attr, st.heap0[attr]) is st.heap0[attr] or (attr not in st.heap and attr not in st.heap0)
+            zval = st.hread(attr, r)
+            if untouched:
+                # the field has not been written since the function was entered: what it refers to existed at entry
+                st.assume(z3.Implies(z3.And(r < st.alloc0, V.is_R(zval)), V.r(zval) < st.alloc0))
+            return [Out("val", st, self.typed(st, zval, fth))]
         if base.th is not None and base.th.strip_optional().name in ("Namespace",):
             fth = self.ns_field_hint(st, attr)
             return [Out("val", st, self.typed(st, st.hread("ns." + attr, V.r(base.z)), fth))]
@@ -846,6 +851,10 @@ class ExprMixin:
     def elem_typed(self, st: State, z, th: Optional[TH]) -> Val:
         if th is None:
             return Val(z)
+        if st.pure:
+            # in a specification the element may sit under a guard (implies / if-else) that excludes this index:
+            # its type is a hint only, never an unconditional fact
+            return Val(z, th=th)
         return self.typed(st, z, th)
 
     def slice_val(self, st: State, base: Val, lo: Optional[Val], hi: Optional[Val], step: Optional[Val], node) -> Val:
